@@ -456,6 +456,25 @@ func bin(op Op, a, b *Term) *Term {
 			if a.Op == OpZExt && b.Val&mask(a.Args[0].W) == mask(a.Args[0].W) {
 				return a
 			}
+			// low-bit masks m = 2^k - 1
+			if m := b.Val; m&(m+1) == 0 {
+				k := uint64(0)
+				for (m>>k)&1 == 1 {
+					k++
+				}
+				// x & m == x when x <= m
+				if ub, ok := UBound(a, 24); ok && ub <= m {
+					return a
+				}
+				// (x << c) & m == 0 when c >= k
+				if a.Op == OpBVShl && a.Args[1].IsConst() && a.Args[1].Val >= k {
+					return BV(0, w)
+				}
+				// (x | y) & m distributes
+				if a.Op == OpBVOr {
+					return bin(OpBVOr, bin(OpBVAnd, a.Args[0], b), bin(OpBVAnd, a.Args[1], b))
+				}
+			}
 		}
 		if a == b {
 			return a
@@ -498,6 +517,23 @@ func bin(op Op, a, b *Term) *Term {
 		// lshr(zext(x), c) with c >= width(x)
 		if op == OpBVLShr && b.IsConst() && a.Op == OpZExt && b.Val >= uint64(a.Args[0].W) {
 			return BV(0, w)
+		}
+		if op == OpBVLShr && b.IsConst() && b.Val < uint64(w) {
+			c := b.Val
+			// lshr(x, c) == 0 when x < 2^c
+			if ub, ok := UBound(a, 24); ok && ub < uint64(1)<<c {
+				return BV(0, w)
+			}
+			// lshr(shl(x, c), c) == x when x < 2^(w-c)
+			if a.Op == OpBVShl && a.Args[1].IsConst() && a.Args[1].Val == c {
+				if ub, ok := UBound(a.Args[0], 24); ok && ub <= mask(w)>>c {
+					return a.Args[0]
+				}
+			}
+			// lshr(x | y, c) distributes
+			if a.Op == OpBVOr {
+				return bin(OpBVOr, bin(OpBVLShr, a.Args[0], b), bin(OpBVLShr, a.Args[1], b))
+			}
 		}
 	case OpBVUDiv:
 		if b.IsConst() && b.Val == 1 {
@@ -567,6 +603,25 @@ func UBound(t *Term, depth int) (uint64, bool) {
 		u1, ok1 := UBound(t.Args[1], depth-1)
 		if ok0 && ok1 && u0+u1 >= u0 && u0+u1 <= full {
 			return u0 + u1, true
+		}
+	case OpBVOr, OpBVXor:
+		u0, ok0 := UBound(t.Args[0], depth-1)
+		u1, ok1 := UBound(t.Args[1], depth-1)
+		if ok0 && ok1 {
+			m := u0 | u1
+			// smallest 2^k - 1 covering both
+			for m&(m+1) != 0 {
+				m |= m >> 1
+			}
+			if m <= full {
+				return m, true
+			}
+		}
+	case OpBVShl:
+		if c := t.Args[1]; c.IsConst() && c.Val < uint64(t.W) {
+			if u, ok := UBound(t.Args[0], depth-1); ok && u <= full>>c.Val {
+				return u << c.Val, true
+			}
 		}
 	case OpBVURem:
 		if b := t.Args[1]; b.IsConst() && b.Val != 0 {
